@@ -51,8 +51,8 @@ PROPERTIES = {
 }
 
 RULES = {
-    "C08": "all 4160 fitting (order,start,length) geometries x payload basis (zero, ones, 64 one-hot, 64 one-cold, seeded "
-           "random) x {UnmarshalUnsigned, UnmarshalSigned}; Marshal{Unsigned,Signed} on 4 prior payloads x boundary+random "
+    "C08": "all 4160 fitting (order,start,length) geometries x payload basis (zero, ones, 64 one-hot, one-cold (16 in quick, 64 in thorough), "
+           "seeded random) x {UnmarshalUnsigned, UnmarshalSigned}; Marshal{Unsigned,Signed} on 4 prior payloads x boundary+random "
            "values; float32 at every 32-bit geometry (special bit patterns + random; MarshalFloat on special/random float64 "
            "values incl. ties, subnormals, overflow, NaN); Unmarshal/MarshalBool for start 0..255; bounds at every L in 1..64; "
            "saturated casts at 0, +-1, both bounds, bounds+-1, type extremes, random; SaturatedCastFloat; value descriptions. "
@@ -84,7 +84,7 @@ ASSUMPTIONS = {
 
 def harness_args(pid, tier, seed):
     if pid == "C08":
-        return ["c08", seed, 2 if tier == "quick" else 200]
+        return ["c08", seed] + ([2, 4] if tier == "quick" else [200, 1])   # nrand coldStep
     # perLen nraw nphys npairs exhMax exh16
     return ["c09", seed] + ([5, 8, 8, 20, 10, 0] if tier == "quick" else [60, 24, 24, 60, 14, 1])
 
